@@ -39,8 +39,23 @@ packet_base.py:97-133 (`__str__`, `dump`), 192-209 (`pack`).
 namespace Pox.Parse
 open Pox Pox.Layout Pox.Packet Pox.Checksum
 
+/-- places in the parsers added in phase 2 where the code, as it stands, lets an exception escape `ethernet(raw=…)`; each is a
+registered known finding (known_findings.json C15-K5 … K14) -/
+inductive Site where
+  | k5v      -- icmpv6 NS/NA: `IPAddr6(raw=raw[o:o+16])` of a short slice → ValueError
+  | k5i      -- icmpv6 NA: `raw[offset]` on a 4-byte message → IndexError
+  | k6       -- `_parse_ndp_options`: raise RuntimeError("Bad option data length")
+  | k7       -- `NDOptionBase.unpack_new`: raise RuntimeError (zero length / bad fixed length)
+  | k8       -- icmpv6 RA / packet-too-big: `struct.unpack_from` past the buffer → struct.error
+  | k9       -- ipv6 extension header: `struct.unpack_from("!BB", raw, offset)` past the buffer → struct.error
+  | k10      -- gre: `struct.unpack` of a short slice for an announced optional field / routing entry → struct.error
+  | k13      -- igmp v3 group record header: `struct.unpack_from` past the buffer → struct.error
+  | k14      -- igmp v3 source address: `IPAddr(raw[o:o+4])` of a 0..3-byte slice (text interpretation; over-approximated)
+  deriving DecidableEq, Repr
+
 inductive PErr where
   | struct | index | type | assert | malformed | truncated | runtime | recursion | fuel
+  | known (s : Site)
   deriving DecidableEq, Repr
 
 /-- the Python exception class name (`struct.error.__name__ = "error"`) -/
@@ -48,6 +63,13 @@ def PErr.toString : PErr → String
   | .struct => "error" | .index => "IndexError" | .type => "TypeError" | .assert => "AssertionError"
   | .malformed => "MalformedException" | .truncated => "TruncatedException" | .runtime => "RuntimeError"
   | .recursion => "RecursionError" | .fuel => "model-fuel"
+  | .known .k5v => "ValueError" | .known .k5i => "IndexError" | .known .k6 => "RuntimeError" | .known .k7 => "RuntimeError"
+  | .known .k8 => "error" | .known .k9 => "error" | .known .k10 => "error" | .known .k13 => "error"
+  | .known .k14 => "OSError|ValueError|UnicodeDecodeError"
+
+def Site.name : Site → String
+  | .k5v => "K5" | .k5i => "K5" | .k6 => "K6" | .k7 => "K7" | .k8 => "K8" | .k9 => "K9" | .k10 => "K10" | .k13 => "K13"
+  | .k14 => "K14"
 
 abbrev P := Except PErr
 
@@ -58,10 +80,14 @@ structure Cfg where
   lldpStrGuard : Bool   -- C15-2
   llcStrGuard : Bool    -- C15-3
   tcpOptBound : Bool    -- C15-4
+  ext : Bool            -- phase 2: the parsers of mpls, eapol/eap, ipv6 (+extension headers), icmpv6 (+NDP), igmp, gre, vxlan,
+                        -- rip, dns are modelled; `false` = they end the chain as `Frame.foreign` (the phase-1 model)
   deriving DecidableEq, Repr
 
-def Cfg.repaired : Cfg := ⟨true, true, true, true, true⟩
-def Cfg.head : Cfg := ⟨false, false, false, false, false⟩
+def Cfg.repaired : Cfg := ⟨true, true, true, true, true, true⟩
+/-- the repaired code with the phase-2 parsers left foreign: the model that `refines_c14` relates to `Packet.parse` -/
+def Cfg.core : Cfg := ⟨true, true, true, true, true, false⟩
+def Cfg.head : Cfg := ⟨false, false, false, false, false, false⟩
 
 /-! ## records that C14 does not have -/
 
@@ -86,6 +112,124 @@ inductive Tlv where
   | simple (t : Nat) (payload : Bytes)     -- port description (4), system name (5), system description (6), unknown types
   deriving DecidableEq, Repr
 
+/-! ### phase 2 records -/
+
+structure Mpls where
+  label : Nat
+  tc : Nat
+  s : Nat
+  ttl : Nat
+  deriving DecidableEq, Repr
+
+structure Eapol where
+  version : Nat
+  type : Nat
+  bodylen : Nat
+  deriving DecidableEq, Repr
+
+structure Eap where
+  code : Nat
+  id : Nat
+  length : Nat
+  type : Option Nat          -- the attribute exists only on a request/response that has the type octet
+  deriving DecidableEq, Repr
+
+structure RipEntry where
+  af : Nat
+  tag : Nat
+  ip : Nat
+  mask : Nat
+  nh : Nat
+  metric : Int               -- read with struct 'i'
+  deriving DecidableEq, Repr
+
+structure Rip where
+  command : Nat
+  version : Nat
+  entries : List RipEntry
+  deriving DecidableEq, Repr
+
+structure Dns where
+  id : Nat
+  bits0 : Nat
+  bits1 : Nat
+  deriving DecidableEq, Repr
+
+structure IPv6 where
+  v : Nat
+  tc : Nat
+  flow : Nat
+  plen : Nat
+  nh : Nat
+  hop : Nat
+  src : Bytes
+  dst : Bytes
+  exts : List (Nat × Nat × Bytes)     -- extension headers read: (TYPE, next_header_type, raw_body)
+  deriving DecidableEq, Repr
+
+inductive NdOpt where
+  | lladdr (t : Nat) (addr : Bytes)                                      -- types 1, 2
+  | pfx (plen flags valid preferred : Nat) (addr : Bytes)                -- type 3 (prefix information)
+  | mtu (v : Nat)                                                        -- type 5
+  | generic (t : Nat) (raw : Bytes)
+  deriving DecidableEq, Repr
+
+structure Gre where
+  type : Nat
+  ver : Nat
+  ssr : Bool
+  recursion : Nat
+  csum : Option Nat
+  routeOffset : Nat
+  key : Option Nat
+  seq : Option Nat
+  routing : Option (List (Nat × Nat × Nat × Bytes))
+  deriving DecidableEq, Repr
+
+structure GroupRec where
+  type : Nat
+  addr : Nat
+  srcs : List Nat
+  aux : Bytes
+  deriving DecidableEq, Repr
+
+structure Igmp where
+  vt : Nat
+  mrt : Nat
+  csum : Nat
+  addr : Option Nat
+  groups : List GroupRec
+  extra : Bytes
+  deriving DecidableEq, Repr
+
+/-- header objects of the phase-2 classes (one constructor of `Frame` for all of them) -/
+inductive Ext where
+  | mpls (h : Mpls)
+  | eapol (h : Eapol)
+  | eap (h : Eap)
+  | vxlan (vni : Option Nat)
+  | rip (h : Rip)
+  | dns (h : Dns)
+  | ipv6 (h : IPv6)
+  | icmp6 (h : Icmp)
+  | echo6 (h : Echo)
+  | unreach6 (unused : Nat)
+  | timeEx6
+  | tooBig6 (mtu : Nat)
+  | ndRS (opts : List NdOpt)
+  | ndRA (hop flags lifetime reachable retrans : Nat) (opts : List NdOpt)
+  | ndNS (target : Bytes) (opts : List NdOpt)
+  | ndNA (flags : Nat) (target : Bytes) (opts : List NdOpt)
+  | gre (h : Gre)
+  | igmp (h : Igmp)
+  deriving DecidableEq, Repr
+
+def Ext.cls : Ext → String
+  | .mpls _ => "mpls" | .eapol _ => "eapol" | .eap _ => "eap" | .vxlan _ => "vxlan" | .rip _ => "rip" | .dns _ => "dns"
+  | .ipv6 _ => "ipv6" | .icmp6 _ => "icmpv6" | .echo6 _ => "echo6" | .unreach6 _ => "unreach6" | .timeEx6 => "TimeExceeded"
+  | .tooBig6 _ => "PacketTooBig" | .ndRS _ => "NDRouterSolicitation" | .ndRA _ _ _ _ _ _ => "NDRouterAdvertisement"
+  | .ndNS _ _ => "NDNeighborSolicitation" | .ndNA _ _ _ => "NDNeighborAdvertisement" | .gre _ => "gre" | .igmp _ => "igmp"
+
 /-- a parsed object chain.  Every packet object keeps the bytes it was given (`self.raw`). -/
 inductive Frame where
   | raw (b : Bytes)                              -- `next` is a bytes object
@@ -104,10 +248,13 @@ inductive Frame where
   | unreach (h : Unreach) (raw : Bytes) (n : Frame)
   | timeEx (h : TimeEx) (raw : Bytes) (n : Frame)
   | lldp (tlvs : List Tlv) (parsed : Bool) (raw : Bytes)      -- `next` of an lldp object is always None
+  | ext (x : Ext) (raw : Bytes) (n : Frame)                   -- a parsed object of a phase-2 class
   deriving Repr
 
 inductive K where
   | eth | vlan | llc | arp | ipv4 | udp | tcp | icmp | echo | unreach | timeEx | lldp
+  | mpls | eapol | eap | vxlan | rip | dns | ipv6 | echo6 | unreach6 | gre | igmp
+  | icmp6 (src dst : Bytes)       -- icmpv6 verifies its checksum against the addresses of `self.prev`
   deriving DecidableEq, Repr
 
 /-! ## partial primitives -/
@@ -139,34 +286,34 @@ def orgL : Layout := [.blob 3, .uint 1]                     -- '3sB'
 /-! ## `parse(raw)` of each class; the recursive constructor call is `next` -/
 
 /-- ethernet.py:130-138 `parse_next` -/
-def parseNext (next : K → Bytes → P Frame) (typelen : Nat) (rest : Bytes) (allowLlc : Bool := true) : P Frame :=
+def parseNext (cfg : Cfg) (next : K → Bytes → P Frame) (typelen : Nat) (rest : Bytes) (allowLlc : Bool := true) : P Frame :=
   if typelen = 0x8100 then next .vlan rest
   else if typelen = 0x0806 ∨ typelen = 0x8035 then next .arp rest
   else if typelen = 0x0800 then next .ipv4 rest
-  else if typelen = 0x86dd then pure (.foreign "ipv6" rest)
+  else if typelen = 0x86dd then (if cfg.ext then next .ipv6 rest else pure (.foreign "ipv6" rest))
   else if typelen = 0x88cc then next .lldp rest
-  else if typelen = 0x888e then pure (.foreign "eapol" rest)
-  else if typelen = 0x8847 ∨ typelen = 0x8848 then pure (.foreign "mpls" rest)
+  else if typelen = 0x888e then (if cfg.ext then next .eapol rest else pure (.foreign "eapol" rest))
+  else if typelen = 0x8847 ∨ typelen = 0x8848 then (if cfg.ext then next .mpls rest else pure (.foreign "mpls" rest))
   else if typelen < 1536 ∧ allowLlc then next .llc rest
   else pure (.raw rest)
 
 /-- ethernet.py:110-128 -/
-def ethParse (next : K → Bytes → P Frame) (raw : Bytes) : P Frame :=
+def ethParse (cfg : Cfg) (next : K → Bytes → P Frame) (raw : Bytes) : P Frame :=
   if raw.length < 14 then pure (.unparsed "ethernet" raw) else
   match unpackE ethL (raw.take 14) with
   | .ok [.raw dst, .raw src, .num type] =>
-    match parseNext next type (raw.drop 14) with
+    match parseNext cfg next type (raw.drop 14) with
     | .ok n => pure (.eth ⟨dst, src, type⟩ raw n)
     | .error e => .error e
   | .ok _ => .error .struct
   | .error e => .error e
 
 /-- vlan.py:66-82 (with D13, already in HEAD) -/
-def vlanParse (next : K → Bytes → P Frame) (raw : Bytes) : P Frame :=
+def vlanParse (cfg : Cfg) (next : K → Bytes → P Frame) (raw : Bytes) : P Frame :=
   if raw.length < 4 then pure (.unparsed "vlan" raw) else
   match unpackE vlanL (raw.take 4) with
   | .ok [.num pcpid, .num ethType] =>
-    match parseNext next ethType (raw.drop 4) with
+    match parseNext cfg next ethType (raw.drop 4) with
     | .ok n => pure (.vlan ⟨pcpid / 8192, (pcpid / 4096) % 2, pcpid % 4096, ethType⟩ raw n)
     | .error e => .error e
   | .ok _ => .error .struct
@@ -175,7 +322,7 @@ def vlanParse (next : K → Bytes → P Frame) (raw : Bytes) : P Frame :=
 def llcDefault : Llc := ⟨none, none, none, 3, none, 0xffff⟩
 
 /-- the SNAP part and the payload dispatch of llc.py:87-105; `length` is 3 or 4 -/
-def llcTail (next : K → Bytes → P Frame) (raw : Bytes) (dsap ssap control length : Nat) : P Frame :=
+def llcTail (cfg : Cfg) (next : K → Bytes → P Frame) (raw : Bytes) (dsap ssap control length : Nat) : P Frame :=
   let plain : Llc := ⟨some dsap, some ssap, some control, length, none, 0xffff⟩
   if ssap &&& 0xfe = 0xaa ∧ dsap &&& 0xfe = 0xaa then
     if raw.length < length + 5 then pure (.llc plain false raw .nil) else
@@ -184,7 +331,7 @@ def llcTail (next : K → Bytes → P Frame) (raw : Bytes) (dsap ssap control le
     | .ok [.num ethType] =>
       let h : Llc := ⟨some dsap, some ssap, some control, length + 5, some oui, ethType⟩
       if oui = [0, 0, 0] then
-        match parseNext next ethType (raw.drop (length + 5)) false with
+        match parseNext cfg next ethType (raw.drop (length + 5)) false with
         | .ok n => pure (.llc h true raw n)
         | .error e => .error e
       else pure (.llc h true raw (.raw (raw.drop (length + 5))))
@@ -193,16 +340,16 @@ def llcTail (next : K → Bytes → P Frame) (raw : Bytes) (dsap ssap control le
   else pure (.llc plain true raw (.raw (raw.drop length)))
 
 /-- llc.py:63-105 -/
-def llcParse (next : K → Bytes → P Frame) (raw : Bytes) : P Frame :=
+def llcParse (cfg : Cfg) (next : K → Bytes → P Frame) (raw : Bytes) : P Frame :=
   if raw.length < 3 then pure (.llc llcDefault false raw .nil) else
   match unpackE llcL (raw.take 3) with
   | .ok [.num dsap, .num ssap, .num c0] =>
     if c0 % 2 = 0 ∨ c0 % 4 = 2 then
       if raw.length < 4 then pure (.llc ⟨some dsap, some ssap, some c0, 3, none, 0xffff⟩ false raw .nil) else
       match ordE (sl raw 3 4) with
-      | .ok b => llcTail next raw dsap ssap (c0 ||| (b <<< 8)) 4
+      | .ok b => llcTail cfg next raw dsap ssap (c0 ||| (b <<< 8)) 4
       | .error e => .error e
-    else llcTail next raw dsap ssap c0 3
+    else llcTail cfg next raw dsap ssap c0 3
   | .ok _ => .error .struct
   | .error e => .error e
 
@@ -226,10 +373,11 @@ def isUnparsed : Frame → Bool
 
 /-- ipv4.py:147-173: which constructor gets the payload (`short` = `dlen < self.iplen`); an object whose parse gave up
 is replaced by the bytes (ipv4.py:172-173) -/
-def ipv4Dispatch (next : K → Bytes → P Frame) (frag proto : Nat) (body : Bytes) (short : Bool) : P Frame :=
+def ipv4Dispatch (cfg : Cfg) (next : K → Bytes → P Frame) (frag proto : Nat) (body : Bytes) (short : Bool) : P Frame :=
   if frag ≠ 0 then pure (.raw body)
-  else if proto = 17 ∨ proto = 6 ∨ proto = 1 then
-    match next (if proto = 17 then .udp else if proto = 6 then .tcp else .icmp) body with
+  else if proto = 17 ∨ proto = 6 ∨ proto = 1 ∨ (cfg.ext = true ∧ (proto = 2 ∨ proto = 47)) then
+    match next (if proto = 17 then .udp else if proto = 6 then .tcp else if proto = 1 then .icmp
+                else if proto = 2 then .igmp else .gre) body with
     | .ok nx => pure (if isUnparsed nx then .raw body else nx)
     | .error e => .error e
   else if proto = 2 then pure (.foreign "igmp" body)
@@ -238,7 +386,7 @@ def ipv4Dispatch (next : K → Bytes → P Frame) (frag proto : Nat) (body : Byt
   else pure (.raw body)
 
 /-- ipv4.py:92-173 -/
-def ipv4Parse (next : K → Bytes → P Frame) (raw : Bytes) : P Frame :=
+def ipv4Parse (cfg : Cfg) (next : K → Bytes → P Frame) (raw : Bytes) : P Frame :=
   let dlen := raw.length
   if dlen < 20 then pure (.unparsed "ipv4" raw) else
   match unpackE ipv4L (raw.take 20) with
@@ -256,27 +404,36 @@ def ipv4Parse (next : K → Bytes → P Frame) (raw : Bytes) : P Frame :=
       let opts := sl raw 20 (hl * 4)
       let length := if iplen > dlen then dlen else iplen
       let body := sl raw (hl * 4) length
-      match ipv4Dispatch next frag proto body (decide (dlen < iplen)) with
+      match ipv4Dispatch cfg next frag proto body (decide (dlen < iplen)) with
       | .ok n => pure (.ipv4 ⟨v, hl, tos, iplen, id, flags, frag, ttl, proto, csum, src, dst, opts⟩ raw n)
       | .error e => .error e
   | .ok _ => .error .struct
   | .error e => .error e
 
-/-- udp.py:76-119 -/
-def udpParse (raw : Bytes) : P Frame :=
+/-- udp.py:91-117: the payload constructor chosen by the ports -/
+def udpPayload (cfg : Cfg) (next : K → Bytes → P Frame) (cls : String) (k : K) (body : Bytes) : P Frame :=
+  if cfg.ext then next k body else pure (.foreign cls body)
+
+/-- udp.py:76-119.  DHCP (ports 67/68) is not behaviour-modelled. -/
+def udpParse (cfg : Cfg) (next : K → Bytes → P Frame) (raw : Bytes) : P Frame :=
   let dlen := raw.length
   if dlen < 8 then pure (.unparsed "udp" raw) else
   match unpackE udpL (raw.take 8) with
   | .ok [.num sport, .num dport, .num len, .num csum] =>
     let h : Udp := ⟨sport, dport, len, csum⟩
     if len < 8 then pure (.udp h raw .nil)
-    else if dport = 67 ∨ dport = 68 then pure (.udp h raw (.foreign "dhcp" (raw.drop 8)))
-    else if dport = 53 ∨ sport = 53 then pure (.udp h raw (.foreign "dns" (raw.drop 8)))
-    else if dport = 5353 ∨ sport = 5353 then pure (.udp h raw (.foreign "dns" (raw.drop 8)))
-    else if dport = 520 ∨ sport = 520 then pure (.udp h raw (.foreign "rip" (raw.drop 8)))
-    else if dport = 4789 ∨ sport = 4789 then pure (.udp h raw (.foreign "vxlan" (raw.drop 8)))
-    else if dlen < len then pure (.udp h raw .nil)
-    else pure (.udp h raw (.raw (raw.drop 8)))
+    else
+      let r : P Frame :=
+        if dport = 67 ∨ dport = 68 then pure (.foreign "dhcp" (raw.drop 8))
+        else if dport = 53 ∨ sport = 53 then udpPayload cfg next "dns" .dns (raw.drop 8)
+        else if dport = 5353 ∨ sport = 5353 then udpPayload cfg next "dns" .dns (raw.drop 8)
+        else if dport = 520 ∨ sport = 520 then udpPayload cfg next "rip" .rip (raw.drop 8)
+        else if dport = 4789 ∨ sport = 4789 then udpPayload cfg next "vxlan" .vxlan (raw.drop 8)
+        else if dlen < len then pure .nil
+        else pure (.raw (raw.drop 8))
+      match r with
+      | .ok n => pure (.udp h raw n)
+      | .error e => .error e
   | .ok _ => .error .struct
   | .error e => .error e
 
@@ -478,6 +635,392 @@ def lldpParse (cfg : Cfg) (raw : Bytes) : P Frame :=
         | .error e => .error e
         | .ok (ts, fin) => pure (.lldp ts fin raw)
 
+/-! ## phase 2: MPLS, EAPOL/EAP, VXLAN, RIP, DNS, IPv6 (+extension headers), ICMPv6 (+NDP), GRE, IGMP
+
+Where the code as it stands lets an exception escape, the model returns `.error (.known site)` — the registered known findings
+C15-K5 … K14 — and nothing else (theorem `parse_total_ext`). -/
+
+def mplsL : Layout := [.uint 2, .uint 1, .uint 1]                                   -- '!HBB'
+def eapolL : Layout := [.uint 1, .uint 1, .uint 2]                                  -- '!BBH'
+def vxlanL : Layout := [.uint 1, .blob 3, .uint 1, .uint 1, .uint 1, .uint 1]       -- '!B3sBBBB'
+def ripL : Layout := [.uint 1, .uint 1, .uint 2]                                    -- '!BBH'
+def dnsL : Layout := [.uint 2, .uint 1, .uint 1, .uint 2, .uint 2, .uint 2, .uint 2] -- '!HBBHHHH'
+def ipv6L : Layout := [.uint 4, .uint 2, .uint 1, .uint 1]                          -- '!IHBB'
+
+/-- mpls.py:60-86.  The nested `mpls(...)` call sits in a bare `try/except` ("Recursion depth?"): whatever it raises,
+the payload is kept as bytes. -/
+def mplsParse (next : K → Bytes → P Frame) (raw : Bytes) : P Frame :=
+  if raw.length < 4 then pure (.unparsed "mpls" raw) else
+  match unpackE mplsL (raw.take 4) with
+  | .ok [.num high, .num b, .num ttl] =>
+    let h : Mpls := ⟨high * 16 + b / 16, (b % 16) / 2, b % 2, ttl⟩
+    if raw.length ≥ 8 ∧ b % 2 = 0 then
+      match next .mpls (raw.drop 4) with
+      | .ok n => pure (.ext (.mpls h) raw n)
+      | .error _ => pure (.ext (.mpls h) raw (.raw (raw.drop 4)))
+    else pure (.ext (.mpls h) raw (.raw (raw.drop 4)))
+  | .ok _ => .error .struct
+  | .error e => .error e
+
+/-- eap.py:153-186 (with C15-6) -/
+def eapParse (raw : Bytes) : P Frame :=
+  if raw.length < 4 then pure (.unparsed "eap" raw) else
+  match unpackE eapolL (raw.take 4) with
+  | .ok [.num code, .num id, .num length] =>
+    if (code = 1 ∨ code = 2) ∧ raw.length < 5 then pure (.ext (.eap ⟨code, id, length, none⟩) raw .nil)
+    else if code = 1 ∨ code = 2 then
+      match unpackE u8L (sl raw 4 5) with
+      | .ok [.num t] => pure (.ext (.eap ⟨code, id, length, some t⟩) raw .nil)
+      | .ok _ => .error .struct
+      | .error e => .error e
+    else pure (.ext (.eap ⟨code, id, length, none⟩) raw .nil)
+  | .ok _ => .error .struct
+  | .error e => .error e
+
+/-- eapol.py:83-101 -/
+def eapolParse (next : K → Bytes → P Frame) (raw : Bytes) : P Frame :=
+  if raw.length < 4 then pure (.unparsed "eapol" raw) else
+  match unpackE eapolL (raw.take 4) with
+  | .ok [.num version, .num type, .num bodylen] =>
+    if type = 0 then
+      match next .eap (raw.drop 4) with
+      | .ok n => pure (.ext (.eapol ⟨version, type, bodylen⟩) raw n)
+      | .error e => .error e
+    else pure (.ext (.eapol ⟨version, type, bodylen⟩) raw .nil)
+  | .ok _ => .error .struct
+  | .error e => .error e
+
+/-- vxlan.py:80-99 -/
+def vxlanParse (next : K → Bytes → P Frame) (raw : Bytes) : P Frame :=
+  if raw.length < 8 then pure (.unparsed "vxlan" raw) else
+  match unpackE vxlanL (raw.take 8) with
+  | .ok [.num flags, .raw _, .num v1, .num v2, .num v3, .num _] =>
+    let vni := v1 * 65536 + v2 * 256 + v3
+    match next .eth (raw.drop 8) with
+    | .ok n => pure (.ext (.vxlan (if (flags / 8) % 2 = 0 then none else some vni)) raw n)
+    | .error e => .error e
+  | .ok _ => .error .struct
+  | .error e => .error e
+
+/-- struct 'i' read back -/
+def decI32 (b : Bytes) : Int :=
+  let w := beDec b
+  if w ≥ 2147483648 then (w : Int) - 4294967296 else (w : Int)
+
+/-- rip.py:100-108: `while len(raw) >= 20: RIPEntry(raw=raw[0:20])` (a 20-byte slice always unpacks) -/
+def ripEntries : Nat → Bytes → List RipEntry
+  | 0, _ => []
+  | fuel+1, b =>
+    if b.length < 20 then [] else
+    ⟨beDec (b.take 2), beDec (sl b 2 4), beDec (sl b 4 8), beDec (sl b 8 12), beDec (sl b 12 16), decI32 (sl b 16 20)⟩
+      :: ripEntries fuel (b.drop 20)
+
+/-- rip.py:86-111 -/
+def ripParse (raw : Bytes) : P Frame :=
+  if raw.length < 24 then pure (.unparsed "rip" raw) else
+  match unpackE ripL (raw.take 4) with
+  | .ok [.num command, .num version, .num z] =>
+    if z ≠ 0 then pure (.unparsed "rip" raw)
+    else pure (.ext (.rip ⟨command, version, ripEntries raw.length (raw.drop 4)⟩) raw .nil)
+  | .ok _ => .error .struct
+  | .error e => .error e
+
+/-- dns.py:265-330 as the code stands (D46): the first question / resource record calls `ord()` on an int inside the
+`try/except Exception` of `parse`, so every message that announces a question or record ends with `parsed = False`; name
+decompression (and its pointer loops) is never reached.  Only a bare header parses. -/
+def dnsParse (raw : Bytes) : P Frame :=
+  if raw.length < 12 then pure (.unparsed "dns" raw) else
+  match unpackE dnsL (raw.take 12) with
+  | .ok [.num id, .num b0, .num b1, .num q, .num a, .num au, .num ad] =>
+    if q ≠ 0 ∨ a ≠ 0 ∨ au ≠ 0 ∨ ad ≠ 0 then pure (.unparsed "dns" raw)
+    else pure (.ext (.dns ⟨id, b0, b1⟩) raw .nil)
+  | .ok _ => .error .struct
+  | .error e => .error e
+
+/-! ### IPv6 -/
+
+/-- outcome of the extension-header loop (ipv6.py:357-373): `none` = `parse` returned early (object stays unparsed) -/
+abbrev ExtRes := Option (Nat × Nat × Nat × List (Nat × Nat × Bytes))     -- (nht, offset, length, headers)
+
+/-- ipv6.py:357-373 with `NormalExtensionHeader.unpack_new` (ipv6.py:100-118) and `FixedExtensionHeader.unpack_new`
+(ipv6.py:172-183) inlined.  `length` is the payload length clamped to `len(raw)` (the whole buffer, as the code does);
+`len(o)` of a normal header is its length octet, of the fragment header 8. -/
+def extLoop (raw : Bytes) : Nat → Nat → Nat → Nat → List (Nat × Nat × Bytes) → P ExtRes
+  | 0, _, _, _, _ => .error .fuel
+  | fuel+1, nht, offset, length, acc =>
+    if nht = 59 then pure (some (nht, offset, length, acc))
+    else if nht = 0 ∨ nht = 43 ∨ nht = 60 then
+      if length < 8 then pure none
+      else if offset + 2 > raw.length then .error (.known .k9)              -- struct.unpack_from("!BB", raw, offset)
+      else
+        match idx raw offset, idx raw (offset + 1) with
+        | .ok nh, .ok lb =>
+          let l := lb * 8 + 6
+          if length - 2 < l then pure none                                   -- TruncatedException, caught
+          else extLoop raw fuel nh (offset + 2 + l) (length - lb) (acc ++ [(nht, nh, sl raw (offset + 2) (offset + 2 + l))])
+        | _, _ => .error .index
+    else if nht = 44 then
+      if length < offset + 8 then pure none                                  -- `(max_length - offset) < LENGTH`
+      else
+        match idx raw offset with
+        | .ok nh => extLoop raw fuel nh (offset + 8) (length - 8) (acc ++ [(44, nh, sl raw (offset + 1) (offset + 8))])
+        | .error e => .error e
+    else pure (some (nht, offset, length, acc))
+
+/-- ipv6.py:326-395 -/
+def ipv6Parse (next : K → Bytes → P Frame) (raw : Bytes) : P Frame :=
+  if raw.length < 40 then pure (.unparsed "ipv6" raw) else
+  match unpackE ipv6L (raw.take 8) with
+  | .ok [.num vtcfl, .num plen, .num nh0, .num hop] =>
+    let src := sl raw 8 24
+    let dst := sl raw 24 40
+    let v := vtcfl / 268435456
+    if v ≠ 6 then pure (.unparsed "ipv6" raw) else
+    let length0 := if plen > raw.length then raw.length else plen
+    match extLoop raw (raw.length + 1) nh0 40 length0 [] with
+    | .error e => .error e
+    | .ok none => pure (.unparsed "ipv6" raw)
+    | .ok (some (nht, offset, length, exts)) =>
+      let h : IPv6 := ⟨v, (vtcfl / 1048576) % 256, vtcfl % 1048576, plen, nh0, hop, src, dst, exts⟩
+      let body := sl raw offset (offset + length)
+      let r : P Frame :=
+        if nht = 17 then next .udp body
+        else if nht = 6 then next .tcp body
+        else if nht = 58 then next (.icmp6 src dst) body
+        else if nht = 59 then pure .nil
+        else pure (.raw body)
+      match r with
+      | .ok nx => pure (.ext (.ipv6 h) raw (if isUnparsed nx then .raw body else nx))
+      | .error e => .error e
+  | .ok _ => .error .struct
+  | .error e => .error e
+
+/-! ### ICMPv6 and neighbour discovery.  Offsets are relative to the ICMPv6 message (`buf_len = len(raw)`). -/
+
+/-- `NDOptionBase.unpack_new` (icmpv6.py:195-224) at `offset`; `.ok none` = TruncatedException (caught by the message class) -/
+def ndOpt (raw : Bytes) (offset : Nat) : P (Option (Nat × NdOpt)) :=
+  match idx raw offset, idx raw (offset + 1) with
+  | .ok t, .ok l =>
+    if l = 0 then .error (.known .k7) else
+    let o := offset + 2
+    let len := l * 8 - 2
+    if raw.length - o < len then pure none else
+    if (t = 1 ∨ t = 2 ∨ t = 5) ∧ len ≠ 6 then .error (.known .k7)
+    else if t = 3 ∧ len ≠ 30 then .error (.known .k7)
+    else if t = 1 ∨ t = 2 then pure (some (o + len, .lladdr t (sl raw o (o + 6))))
+    else if t = 3 then
+      pure (some (o + len, .pfx (beDec (sl raw o (o + 1))) (beDec (sl raw (o + 1) (o + 2))) (beDec (sl raw (o + 2) (o + 6)))
+        (beDec (sl raw (o + 6) (o + 10))) (sl raw (o + 14) (o + 30))))
+    else if t = 5 then pure (some (o + len, .mtu (beDec (sl raw (o + 2) (o + 6)))))
+    else pure (some (o + len, .generic t (sl raw o (o + len))))
+  | _, _ => .error .struct
+
+/-- `_parse_ndp_options` (icmpv6.py:122-138): `.ok none` = a TruncatedException left the walker -/
+def ndOpts (raw : Bytes) : Nat → Nat → List NdOpt → P (Option (List NdOpt))
+  | 0, _, _ => .error .fuel
+  | fuel+1, offset, acc =>
+    if offset + 2 < raw.length then
+      if (raw.length - offset) % 8 ≠ 0 then .error (.known .k6)
+      else match ndOpt raw offset with
+        | .error e => .error e
+        | .ok none => pure none
+        | .ok (some (o', opt)) => ndOpts raw fuel o' (acc ++ [opt])
+    else pure (some acc)
+
+/-- options of a message whose fixed part ends at `offset`; a TruncatedException leaves the option list empty
+(the object exists, `icmp_base.__init__` already set `parsed = True`) -/
+def ndOptsOf (raw : Bytes) (offset : Nat) : P (List NdOpt) :=
+  match ndOpts raw raw.length offset [] with
+  | .error e => .error e
+  | .ok none => pure []
+  | .ok (some os) => pure os
+
+/-- the message classes of icmpv6.py:485-800 (`cls.unpack_new(raw, offset=4, buf_len=len(raw), prev=self)`) and the old-style
+classes echo / unreach behind `unpack_new_adapter` -/
+def icmp6Body (next : K → Bytes → P Frame) (type : Nat) (raw : Bytes) : P Frame :=
+  let body := raw.drop 4
+  if type = 128 ∨ type = 129 then next .echo6 body
+  else if type = 1 then next .unreach6 body
+  else if type = 3 then pure (.ext .timeEx6 body (.raw (raw.drop 8)))
+  else if type = 2 then
+    if raw.length < 8 then .error (.known .k8)                               -- struct.unpack_from("!I", raw, 4)
+    else pure (.ext (.tooBig6 (beDec (sl raw 4 8))) body (.raw (raw.drop 8)))
+  else if type = 133 then
+    match ndOptsOf raw 8 with
+    | .ok os => pure (.ext (.ndRS os) body .nil)
+    | .error e => .error e
+  else if type = 134 then
+    if raw.length < 16 then .error (.known .k8)                              -- struct.unpack_from("!BBHII", raw, 4)
+    else match ndOptsOf raw 16 with
+      | .ok os => pure (.ext (.ndRA (beDec (sl raw 4 5)) (beDec (sl raw 5 6)) (beDec (sl raw 6 8)) (beDec (sl raw 8 12))
+                                   (beDec (sl raw 12 16)) os) body .nil)
+      | .error e => .error e
+  else if type = 135 then
+    if (sl raw 8 24).length ≠ 16 then .error (.known .k5v)                   -- IPAddr6(raw=raw[8:24])
+    else match ndOptsOf raw 24 with
+      | .ok os => pure (.ext (.ndNS (sl raw 8 24) os) body .nil)
+      | .error e => .error e
+  else if type = 136 then
+    match idx raw 4 with
+    | .error _ => .error (.known .k5i)                                       -- flags = raw[offset]
+    | .ok flags =>
+      if (sl raw 8 24).length ≠ 16 then .error (.known .k5v)
+      else match ndOptsOf raw 24 with
+        | .ok os => pure (.ext (.ndNA flags (sl raw 8 24) os) body .nil)
+        | .error e => .error e
+  else pure (.raw body)
+
+/-- icmpv6.py:944-950: the pseudo-header checksum the message must carry (`len(self.raw)` packed with '!I': assumed < 2^32) -/
+def icmp6Csum (src dst raw : Bytes) : Nat :=
+  checksum ((src ++ dst) ++ (beEnc 4 raw.length ++ [0, 0, 0, 58]) ++ raw) 0 (some 21)
+
+/-- icmpv6.py:962-1005 -/
+def icmp6Parse (src dst : Bytes) (next : K → Bytes → P Frame) (raw : Bytes) : P Frame :=
+  if raw.length < 4 then pure (.unparsed "icmpv6" raw) else
+  match unpackE icmpL (raw.take 4) with
+  | .ok [.num type, .num code, .num csum] =>
+    if csum ≠ icmp6Csum src dst raw then pure (.unparsed "icmpv6" raw)
+    else match icmp6Body next type raw with
+      | .ok n => pure (.ext (.icmp6 ⟨type, code, csum⟩) raw n)
+      | .error e => .error e
+  | .ok _ => .error .struct
+  | .error e => .error e
+
+/-- icmpv6.py:840-860 -/
+def echo6Parse (raw : Bytes) : P Frame :=
+  if raw.length < 4 then pure (.unparsed "echo6" raw) else
+  match unpackE echoL (raw.take 4) with
+  | .ok [.num id, .num seq] => pure (.ext (.echo6 ⟨id, seq⟩) raw (.raw (raw.drop 4)))
+  | .ok _ => .error .struct
+  | .error e => .error e
+
+/-- icmpv6.py:897-918 (with C15-7) -/
+def unreach6Parse (next : K → Bytes → P Frame) (raw : Bytes) : P Frame :=
+  if raw.length < 4 then pure (.unparsed "unreach6" raw) else
+  match unpackE u32L (raw.take 4) with
+  | .ok [.num unused] =>
+    if raw.length ≥ 48 then
+      match next .ipv6 (raw.drop 4) with
+      | .ok n => pure (.ext (.unreach6 unused) raw n)
+      | .error e => .error e
+    else pure (.ext (.unreach6 unused) raw (.raw (raw.drop 4)))
+  | .ok _ => .error .struct
+  | .error e => .error e
+
+/-! ### GRE -/
+
+/-- `struct.unpack(fmt, raw[o:o+n])` of an optional field: a short slice is finding K10 -/
+def greField (raw : Bytes) (o n : Nat) : P Nat :=
+  if (sl raw o (o + n)).length ≠ n then .error (.known .k10) else pure (beDec (sl raw o (o + n)))
+
+/-- gre.py:139-146: the source-route entries up to the empty one -/
+def greRouting (raw : Bytes) : Nat → Nat → List (Nat × Nat × Nat × Bytes) → P (Nat × List (Nat × Nat × Nat × Bytes))
+  | 0, _, _ => .error .fuel
+  | fuel+1, o, acc =>
+    if (sl raw o (o + 4)).length ≠ 4 then .error (.known .k10) else
+    let af := beDec (sl raw o (o + 2))
+    let so := beDec (sl raw (o + 2) (o + 3))
+    let sl' := beDec (sl raw (o + 3) (o + 4))
+    let acc' := acc ++ [(af, so, sl', sl raw (o + 4) (o + 4 + sl'))]
+    if sl' = 0 then pure (o + 4, acc') else greRouting raw fuel (o + 4 + sl') acc'
+
+/-- gre.py:102-149 (`verify_csum` is False) -/
+def greParse (next : K → Bytes → P Frame) (raw : Bytes) : P Frame :=
+  if raw.length < 4 then pure (.unparsed "gre" raw) else
+  match unpackE [.uint 2, .uint 2] (raw.take 4) with
+  | .ok [.num flags, .num type] =>
+    let csumP := (flags / 32768) % 2 = 1
+    let routeP := (flags / 16384) % 2 = 1
+    let keyP := (flags / 8192) % 2 = 1
+    let seqP := (flags / 4096) % 2 = 1
+    let step1 : P (Nat × Option Nat × Nat) :=
+      if csumP ∨ routeP then
+        match greField raw 4 2, greField raw 6 2 with
+        | .ok c, .ok ro => pure (8, some c, ro)
+        | .error e, _ => .error e
+        | _, .error e => .error e
+      else pure (4, none, 0)
+    match step1 with
+    | .error e => .error e
+    | .ok (o1, csum, ro) =>
+      let step2 : P (Nat × Option Nat) := if keyP then (match greField raw o1 4 with | .ok k => pure (o1 + 4, some k) | .error e => .error e) else pure (o1, none)
+      match step2 with
+      | .error e => .error e
+      | .ok (o2, key) =>
+        let step3 : P (Nat × Option Nat) := if seqP then (match greField raw o2 4 with | .ok k => pure (o2 + 4, some k) | .error e => .error e) else pure (o2, none)
+        match step3 with
+        | .error e => .error e
+        | .ok (o3, seq) =>
+          let step4 : P (Nat × Option (List (Nat × Nat × Nat × Bytes))) :=
+            if routeP then (match greRouting raw raw.length o3 [] with | .ok (o, rs) => pure (o, some rs) | .error e => .error e)
+            else pure (o3, none)
+          match step4 with
+          | .error e => .error e
+          | .ok (o, routing) =>
+            let h : Gre := ⟨type, flags % 8, decide ((flags / 2048) % 2 = 1), (flags / 256) % 8, csum, ro, key, seq, routing⟩
+            let body := raw.drop o
+            let r : P Frame :=
+              if type = 0x0800 then next .ipv4 body
+              else if type = 0x6558 then next .eth body
+              else pure (.raw body)
+            match r with
+            | .ok n => pure (.ext (.gre h) raw n)
+            | .error e => .error e
+  | .ok _ => .error .struct
+  | .error e => .error e
+
+/-! ### IGMP -/
+
+/-- the `n` source addresses of a group record: `IPAddr(raw[offset:offset+4])` (igmp.py:186-188) -/
+def igmpSrcs (b : Bytes) : Nat → Nat → P (List Nat)
+  | 0, _ => pure []
+  | n+1, o =>
+    if (sl b o (o + 4)).length ≠ 4 then .error (.known .k14) else
+    match igmpSrcs b n (o + 4) with
+    | .ok r => pure (beDec (sl b o (o + 4)) :: r)
+    | .error e => .error e
+
+/-- igmp.py:181-193 `GroupRecord.unpack_new(raw)`: (bytes consumed, record) -/
+def groupRec (b : Bytes) : P (Nat × GroupRec) :=
+  if b.length < 8 then .error (.known .k13) else                              -- struct.unpack_from("!BBH4s", raw, 0)
+  let n := beDec (sl b 2 4)
+  let auxlen := beDec (sl b 1 2) * 4
+  match igmpSrcs b n 8 with
+  | .error e => .error e
+  | .ok srcs => pure (8 + 4 * n + auxlen, ⟨beDec (sl b 0 1), beDec (sl b 4 8), srcs, sl b (8 + 4 * n) (8 + 4 * n + auxlen)⟩)
+
+def groupRecs : Nat → Bytes → List GroupRec → P (List GroupRec × Bytes)
+  | 0, b, acc => pure (acc, b)
+  | n+1, b, acc =>
+    match groupRec b with
+    | .error e => .error e
+    | .ok (off, g) => groupRecs n (b.drop off) (acc ++ [g])
+
+/-- igmp.py:109-150; a checksum mismatch or an unknown type leaves the object unparsed -/
+def igmpParse (raw : Bytes) : P Frame :=
+  if raw.length < 8 then pure (.unparsed "igmp" raw) else
+  match idx raw 0 with
+  | .error e => .error e
+  | .ok vt =>
+    if vt = 0x22 then
+      match unpackE [.uint 1, .uint 1, .uint 2, .uint 2, .uint 2] (raw.take 8) with
+      | .ok [.num _, .num _, .num csum, .num _, .num num] =>
+        match groupRecs num (raw.drop 8) [] with
+        | .error e => .error e
+        | .ok (gs, extra) =>
+          if checksum ([UInt8.ofNat vt, 0, 0, 0, 0, 0] ++ (sl raw 6 8 ++ raw.drop 8)) 0 none ≠ csum then pure (.unparsed "igmp" raw)
+          else pure (.ext (.igmp ⟨vt, 0, csum, none, gs, extra⟩) raw .nil)
+      | .ok _ => .error .struct
+      | .error e => .error e
+    else if vt = 0x11 ∨ vt = 0x12 ∨ vt = 0x16 ∨ vt = 0x17 then
+      match unpackE [.uint 1, .uint 1, .uint 2, .uint 4] (raw.take 8) with
+      | .ok [.num _, .num mrt, .num csum, .num addr] =>
+        if checksum (raw.take 2 ++ ([0, 0] ++ raw.drop 4)) 0 none ≠ csum then pure (.unparsed "igmp" raw)
+        else pure (.ext (.igmp ⟨vt, mrt, csum, some addr, [], raw.drop 8⟩) raw .nil)
+      | .ok _ => .error .struct
+      | .error e => .error e
+    else pure (.unparsed "igmp" raw)
+
 /-! ## the whole chain -/
 
 /-- class `k`'s constructor applied to `raw` with `d` nested constructor activations still available -/
@@ -485,18 +1028,30 @@ def parseD (cfg : Cfg) : Nat → K → Bytes → P Frame
   | 0, _, _ => .error .recursion
   | d+1, k, raw =>
     match k with
-    | .eth => ethParse (parseD cfg d) raw
-    | .vlan => vlanParse (parseD cfg d) raw
-    | .llc => llcParse (parseD cfg d) raw
+    | .eth => ethParse cfg (parseD cfg d) raw
+    | .vlan => vlanParse cfg (parseD cfg d) raw
+    | .llc => llcParse cfg (parseD cfg d) raw
     | .arp => arpParse raw
-    | .ipv4 => ipv4Parse (parseD cfg d) raw
-    | .udp => udpParse raw
+    | .ipv4 => ipv4Parse cfg (parseD cfg d) raw
+    | .udp => udpParse cfg (parseD cfg d) raw
     | .tcp => tcpParse cfg raw
     | .icmp => icmpParse (parseD cfg d) raw
     | .echo => echoParse raw
     | .unreach => unreachParse (parseD cfg d) raw
     | .timeEx => timeExParse (parseD cfg d) raw
     | .lldp => lldpParse cfg raw
+    | .mpls => mplsParse (parseD cfg d) raw
+    | .eapol => eapolParse (parseD cfg d) raw
+    | .eap => eapParse raw
+    | .vxlan => vxlanParse (parseD cfg d) raw
+    | .rip => ripParse raw
+    | .dns => dnsParse raw
+    | .ipv6 => ipv6Parse (parseD cfg d) raw
+    | .icmp6 s t => icmp6Parse s t (parseD cfg d) raw
+    | .echo6 => echo6Parse raw
+    | .unreach6 => unreach6Parse (parseD cfg d) raw
+    | .gre => greParse (parseD cfg d) raw
+    | .igmp => igmpParse raw
 
 /-- `ethernet(raw=bs)` with `d` nested activations available (`PacketIn.parsed` is exactly this call,
 openflow/__init__.py:182-185) -/
@@ -600,6 +1155,7 @@ def packF : Option IPCtx → Frame → R Bytes
     let hd ← timeExHdr h
     pure (hd ++ rest)
   | _, .lldp ts parsed r => if parsed then tlvsPack ts else pure r
+  | _, .ext x _ _ => .error (.unmodelled x.cls)          -- pack() of the phase-2 classes is not modelled
 
 /-! ## `str()` / `dump()` of a parse result (packet_base.py:97-133 and each class's `__str__` / `_to_str`)
 
@@ -628,7 +1184,7 @@ def llcStr (cfg : Cfg) (h : Llc) : P Unit :=
 
 /-- `dump()` (= `str()` of every layer) -/
 def printF (cfg : Cfg) : Frame → P Unit
-  | .raw _ | .nil | .unparsed _ _ | .foreign _ _ => pure ()
+  | .raw _ | .nil | .unparsed _ _ | .foreign _ _ | .ext _ _ _ => pure ()
   | .eth _ _ n | .vlan _ _ n | .arp _ _ n | .ipv4 _ _ n | .udp _ _ n | .tcp _ _ n | .icmp _ _ n | .echo _ _ n
   | .unreach _ _ n | .timeEx _ _ n => printF cfg n
   | .llc h _ _ n => do llcStr cfg h; printF cfg n
@@ -638,6 +1194,7 @@ def printF (cfg : Cfg) : Frame → P Unit
 
 def Frame.hasForeign : Frame → Bool
   | .foreign _ _ => true
+  | .ext _ _ _ => true            -- for pack/print the phase-2 classes are outside the model
   | .eth _ _ n | .vlan _ _ n | .llc _ _ _ n | .arp _ _ n | .ipv4 _ _ n | .udp _ _ n | .tcp _ _ n | .icmp _ _ n
   | .echo _ _ n | .unreach _ _ n | .timeEx _ _ n => n.hasForeign
   | _ => false
@@ -647,7 +1204,7 @@ def Frame.bytes : Frame → Bytes
   | .raw b => b
   | .nil => []
   | .unparsed _ r | .foreign _ r | .eth _ r _ | .vlan _ r _ | .llc _ _ r _ | .arp _ r _ | .ipv4 _ r _ | .udp _ r _
-  | .tcp _ r _ | .icmp _ r _ | .echo _ r _ | .unreach _ r _ | .timeEx _ r _ | .lldp _ _ r => r
+  | .tcp _ r _ | .icmp _ r _ | .echo _ r _ | .unreach _ r _ | .timeEx _ r _ | .lldp _ _ r | .ext _ r _ => r
 
 /-- the C14 view of a parse result: LLC and LLDP objects and foreign layers are what `Packet.parse` calls `unmodelled` -/
 def Frame.toPkt : Frame → Pkt
@@ -668,6 +1225,7 @@ def Frame.toPkt : Frame → Pkt
   | .unreach h _ n => .unreach h n.toPkt
   | .timeEx h _ n => .timeEx h n.toPkt
   | .lldp _ _ r => .unmodelled "lldp" r
+  | .ext x r _ => .unmodelled x.cls r
 
 /-- class names down the chain (terminal: `bytes`, `None`, `?cls` for a foreign layer, `!cls` for an object that gave up) -/
 def Frame.classes : Frame → List String
@@ -687,6 +1245,7 @@ def Frame.classes : Frame → List String
   | .unreach _ _ n => "unreach" :: n.classes
   | .timeEx _ _ n => "time_exceeded" :: n.classes
   | .lldp _ p _ => [if p then "lldp" else "!lldp"]
+  | .ext x _ n => x.cls :: n.classes
 
 /-- what `ethernet(raw=bs)` raises in the model (nesting budget `budget bs`), if anything -/
 def parseExc (cfg : Cfg) (bs : Bytes) : Option PErr :=
@@ -718,6 +1277,6 @@ def classesOf (cfg : Cfg) (bs : Bytes) : List String :=
 def K.toKind : K → Option Kind
   | .eth => some .eth | .vlan => some .vlan | .arp => some .arp | .ipv4 => some .ipv4 | .udp => some .udp
   | .tcp => some .tcp | .icmp => some .icmp | .echo => some .echo | .unreach => some .unreach | .timeEx => some .timeEx
-  | .llc | .lldp => none
+  | _ => none
 
 end Pox.Parse
